@@ -34,6 +34,7 @@ def get_model(params: dict | None = None, read_parameters=False):
             m = Model(enable_geophires_logging_config=False, input_file=path)
             if read_parameters:
                 m.read_parameters()
+                m._pyvc_read = True
         finally:
             sys.stdout = old_stdout
             devnull.close()
